@@ -25,6 +25,7 @@ type thread struct {
 	wwg    *swg
 	daemon bool
 	reason string
+	cond   func() bool // blocked until cond() holds
 }
 
 type schan struct {
@@ -175,6 +176,11 @@ func (p *pathCtx) park(t *thread) {
 // reschedule picks the next thread to run. The caller is p.cur (in any state).
 func (p *pathCtx) reschedule() {
 	cur := p.cur
+	for _, t := range p.threads {
+		if t.state == tBlocked && t.cond != nil && t.cond() {
+			t.state = tRunnable
+		}
+	}
 	var runnable []*thread
 	if cur.state == tRunnable {
 		runnable = append(runnable, cur)
